@@ -349,3 +349,26 @@ def case_hash(obj):
 def rng_for(seed, *tags):
     h = hashlib.sha256(("%s|" % seed + "|".join(map(str, tags))).encode()).digest()
     return random.Random(int.from_bytes(h[:8], "big"))
+
+
+class _Sink(__import__("logging").Handler):
+    """Formats every record (so that a broken log call fails where it is made) and throws it away."""
+
+    def emit(self, record):
+        record.getMessage()
+
+
+def debug_logging(on):
+    """The library under DEBUG logging (every log statement is evaluated and formatted) or silenced."""
+    import logging
+    lg = logging.getLogger("mysensors")
+    if on:
+        logging.disable(logging.NOTSET)
+        logging.raiseExceptions = True
+        if not any(isinstance(h, _Sink) for h in lg.handlers):
+            lg.addHandler(_Sink())
+        lg.setLevel(logging.DEBUG)
+        lg.propagate = False
+    else:
+        lg.setLevel(logging.WARNING)
+        logging.disable(logging.CRITICAL)
